@@ -52,7 +52,8 @@ EXPECTED_PROBES = ["two_pass_kernel", "retry_after_alloc_error_pass1", "retry_af
                    "parallax_zero_aberration", "parallax_defocus_shift", "fractional_aperture_weight",
                    "parallax_with_rotation", "override_used", "cropped_mask_instance", "mask_not_a_disc", "energy_not_300kV",
                    "anisotropic_scan_sampling", "parallax_limit_on_cropped_instance",
-                   "recombination_more_than_two_parts", "batch_size_numpy_int", "mask_calibrated_in_mrad"]
+                   "recombination_more_than_two_parts", "batch_size_numpy_int", "mask_calibrated_in_mrad",
+                   "constructor_from_dataset4d", "constructor_from_dataset4d_shifted_patterns"]
 
 KERNELS = {"ssb": ["ssb", "single-sideband", "acbf", "aberration-corrected-bright-field"],
            "obf": ["obf", "optimum-bright-field"], "mf": ["mf", "matched-filter"],
@@ -113,7 +114,13 @@ def gen(rng: Rng, tier, i):
             "ss": rng.fork("ss").pick([[0.5, 0.5], [0.5, 0.5], [0.5, 0.5], [0.4, 0.7], [1.0, 0.25]]),
             "mask_kind": rng.fork("mk").pick(["disc", "disc", "disc", "ring", "half", "blobs"]),
             # calibration of the detector mask: reciprocal Angstrom, or milliradian (same pixels)
-            "mask_units": rng.fork("mu").pick(["A^-1", "A^-1", "mrad"])}
+            "mask_units": rng.fork("mu").pick(["A^-1", "A^-1", "mrad"]),
+            # the other constructor: the same stack and mask packed into a 4-D dataset (every pattern
+            # displaced by an integer origin that is handed over as the fitted origin)
+            "ctor4d": {"seed": rng.fork("c4").randrange(10 ** 6), "shifted": rng.fork("c4").chance(0.6),
+                       "kernel": rng.fork("c4").pick(["ssb", "prlx", "icom", "obf", "mf"]),
+                       "b": ["knob", rng.fork("c4").randrange(10 ** 6)]}
+            if rng.fork("c4").chance(0.3) else None}
     for j in range(rng.pick([3, 4, 6])):
         r = rng.fork(("call", j))
         kern = r.pick(list(KERNELS))
@@ -350,6 +357,58 @@ def run(plan):
             if not _relerr(D.corrected_bf.detach().numpy(), ref_bf) <= 5 * TOL:
                 viol("not_batch_or_history_invariant", f"{tag}: corrected_bf deviates",
                      f"not_batch_or_history_invariant:bf:{kern}")
+        # ---- from_dataset4d on a 4-D dataset that holds exactly this stack and mask
+        c4 = plan.get("ctor4d")
+        if c4:
+            bump(probes, "constructor_from_dataset4d")
+            sx_, sy_ = plan["scan"]
+            n_ = plan["grid"]
+            d4 = np.zeros((sx_, sy_, n_, n_), np.float32)
+            d4[..., mask] = np.moveaxis(vbf, 0, -1)
+            g4 = np.random.Generator(np.random.PCG64(c4["seed"]))
+            org = np.zeros((sx_ * sy_, 2), np.int64)
+            if c4["shifted"]:
+                org = np.stack([g4.integers(0, n_, sx_ * sy_), g4.integers(0, n_, sx_ * sy_)], -1)
+                flat = d4.reshape(sx_ * sy_, n_, n_)
+                for q in range(sx_ * sy_):
+                    flat[q] = np.roll(flat[q], (org[q, 0], org[q, 1]), (0, 1))
+                bump(probes, "constructor_from_dataset4d_shifted_patterns")
+            ss_ = plan.get("ss", [0.5, 0.5])
+            from quantem.core.datastructures.dataset4dstem import Dataset4dstem as _D4
+
+            ds4 = _D4.from_array(d4, sampling=(ss_[0], ss_[1], plan["rs"], plan["rs"]),
+                                 units=("A", "A", "A^-1", "A^-1"))
+            kwc = dict(energy=plan.get("energy", 300e3), semiangle_cutoff=plan["cutoff"],
+                       aberration_coefs=dict(plan["ab"]), rotation_angle=plan["rot"], crop_bf_mask=False,
+                       verbose=0)
+            try:
+                Da = _ctx["dp"].DirectPtychography.from_dataset4d(
+                    ds4, force_fitted_origin=org.astype(np.float32), max_batch_size=_b(c4["b"], sx_ * sy_),
+                    **kwc)
+                vn = vbf / vbf.mean((1, 2), keepdims=True)
+                Db = _ctx["dp"].DirectPtychography.from_virtual_bfs(
+                    _ctx["D3"].from_array(vn, sampling=(1, ss_[0], ss_[1]), units=("index", "A", "A")),
+                    _ctx["D2"].from_array(mask, sampling=(plan["rs"], plan["rs"]), units=("A^-1", "A^-1")),
+                    **kwc)
+                if tuple(Da.bf_mask.shape) != tuple(Db.bf_mask.shape) or not bool(
+                        (Da.bf_mask == Db.bf_mask).all()):
+                    viol("constructors_disagree", "from_dataset4d found another bright-field mask than "
+                         "the one the patterns were built from", "constructors_disagree:mask")
+                else:
+                    ra_ = Da.reconstruct(deconvolution_kernel=c4["kernel"], parallax_flip_phase=False
+                                         ).corrected_stack.detach().numpy()
+                    rb_ = Db.reconstruct(deconvolution_kernel=c4["kernel"], parallax_flip_phase=False
+                                         ).corrected_stack.detach().numpy()
+                    if np.isfinite(rb_).all() and np.abs(rb_).max() > 0 and (
+                            ra_.shape != rb_.shape or not _relerr(ra_, rb_) <= 5 * TOL):
+                        viol("constructors_disagree", f"kernel {c4['kernel']}: from_dataset4d (integer "
+                             f"origins {'shifted' if c4['shifted'] else 'zero'}) deviates from "
+                             f"from_virtual_bfs on the same stack and mask by "
+                             f"{_relerr(ra_, rb_) if ra_.shape == rb_.shape else float('nan'):.3g}",
+                             f"constructors_disagree:{c4['kernel']}")
+            except Exception as e:
+                viol("op_raised", f"from_dataset4d / reconstruct raised {e!r}",
+                     f"op_raised:from_dataset4d:{type(e).__name__}")
         # ---- the same detector pixels calibrated in mrad and in 1/A
         if plan.get("mask_units") == "mrad" and plan["calls"]:
             bump(probes, "mask_calibrated_in_mrad")
@@ -600,7 +659,7 @@ def shrink(plan):
     from .. import simhist
 
     yield from simhist.shrink_history(plan, "calls")
-    for key in ("linearity", "recombine", "crop"):
+    for key in ("linearity", "recombine", "crop", "ctor4d"):
         if plan.get(key):
             yield {**plan, key: None}
     if plan.get("analytic"):
